@@ -25,11 +25,12 @@ use bytes::Bytes;
 use crate::verif_hooks::sync::DashMap;
 #[cfg(not(feature = "verif-hooks"))]
 use dashmap::DashMap;
+#[cfg(feature = "verif-hooks")]
+use crate::verif_hooks::sync::{AtomicU64, AtomicUsize};
+#[cfg(not(feature = "verif-hooks"))]
+use std::sync::atomic::{AtomicU64, AtomicUsize};
 use std::{
-    sync::{
-        Arc,
-        atomic::{AtomicU64, AtomicUsize, Ordering},
-    },
+    sync::{Arc, atomic::Ordering},
     time::{Duration, Instant},
 };
 use tokio::time::interval;
